@@ -1,7 +1,8 @@
 # per-property configuration for bin/vcheck
 PROPS = {
     "C20": {
-        "parts": [{"pkg": "livesim", "test": "TestVerifC20", "shards": {"quick": 8, "thorough": 16}}],
+        "parts": [{"pkg": "livesim", "test": "TestVerifC20", "shards": {"quick": 8, "thorough": 16}},
+                  {"pkg": "livesim", "test": "TestVerifRaceC20", "race": True, "race_clause": "C20.race", "tiers": ["thorough"], "shards": {"thorough": 4}, "budget_s": {"thorough": 300}}],
         "clauses": ["C20.lin", "C20.quota", "C20.race", "C20.seq"],
         "level": "model_checking",
         "rule": "every schedule (preemption bound 2 quick / 3 thorough) of 2-3 client threads + reader (+ clock tick) "
@@ -152,7 +153,8 @@ PROPS = {
         "assumptions": ["each asset is copied alone into a scratch VoD root", "responses are compared byte for byte with a scanning server"],
     },
     "C19": {
-        "parts": [{"pkg": "receiver", "test": "TestVerifC19", "shards": {"quick": 16, "thorough": 16}, "env": {"GOMAXPROCS": "1"}, "budget_s": {"quick": 60, "thorough": 1500}}],
+        "parts": [{"pkg": "receiver", "test": "TestVerifC19", "shards": {"quick": 16, "thorough": 16}, "env": {"GOMAXPROCS": "1"}, "budget_s": {"quick": 60, "thorough": 1500}},
+                  {"pkg": "receiver", "test": "TestVerifRaceC19", "race": True, "race_clause": "C19.race", "tiers": ["thorough"], "shards": {"thorough": 4}, "budget_s": {"thorough": 300}}],
         "clauses": ["C19.a", "C19.c", "C19.race"],
         "level": "model_checking",
         "rule": "7 scenarios (2-3 concurrent first uploads of distinct tracks of a new channel, init+media, two channels, existing channel, authentication + per-representation config, media of two tracks): "
@@ -179,7 +181,8 @@ PROPS = {
         "assumptions": ["the receiver is an in-process http.RoundTripper: it reads the whole body, then answers; TCP-level behaviour of net/http is not modelled", "asset testpic_2s (2 s segments)"],
     },
     "C07": {
-        "parts": [{"pkg": "livesim", "test": "TestVerifC07", "env": {"GOMAXPROCS": "1"}}],
+        "parts": [{"pkg": "livesim", "test": "TestVerifC07", "env": {"GOMAXPROCS": "1"}},
+                  {"pkg": "livesim", "test": "TestVerifRaceC07", "race": True, "race_clause": "C07.race", "tiers": ["thorough"], "budget_s": {"thorough": 600}}],
         "clauses": ["C07.history", "C07.concurrent", "C07.race", "C07.maporder", "C07.instance"],
         "level": "model_checking",
         "rule": "alphabet of ~52 requests (MPD types, init, media incl. re-segmented audio, ECCP/CPIX encrypted, chunked, subtitles, thumbnails, SCTE-35, patch, vod, pages, an ingest session cycle); "
